@@ -628,6 +628,20 @@ class Run03(object):
             return     # functions restored from two stores are different objects; == cannot hold
         self.note('c03_eq_checks')
         b = self.b
+        # ... against an in-memory archive, from either side (equality between archives compares contents)
+        if b['kind'] != 'dict_archive':
+            mem = _KA.dict_archive()
+            mem.update(dict(M))
+            self.note('c03_eq_cross_type_checks')
+            for x, y, what in ((a, mem, 'archive == dict_archive'), (mem, a, 'dict_archive == archive')):
+                if not (x == y) or (x != y):
+                    self.bad('eq-wrong', '%s: equal contents compare unequal' % what)
+                    return
+            mem['only-in-memory'] = 1
+            for x, y, what in ((a, mem, 'archive == dict_archive'), (mem, a, 'dict_archive == archive')):
+                if (x == y) or not (x != y):
+                    self.bad('eq-wrong', '%s: different contents compare equal (%d vs %d entries)' % (what, len(M), len(M) + 1))
+                    return
         # an equal archive of the same type elsewhere, and one that differs
         other = open_archive(b, self.root, cached=False, suffix='E%d' % self.step)
         try:
